@@ -9,7 +9,7 @@ by emit.Emitter into `<out>/<Module>.lean`.  A function that leaves the supporte
 it is emitted as a comment and listed in the report (`untranslatable`), which the orchestrator treats as a failed
 proof obligation of the properties that depend on the module (the bridge theorem about it can no longer be checked).
 """
-import sys, os, json, argparse
+import sys, os, json, argparse, re
 
 HERE = os.path.dirname(os.path.abspath(__file__))
 sys.path.insert(0, HERE)
@@ -22,7 +22,8 @@ SPEC = {
               "Data": "Bytes", "Hash": "Bytes", "Nonce": "Bytes", "MsgVerifier": "Verifier",
               "MsgSigner": "Signer", "SystemTime": "Rs.Time", "Duration": "Rs.Time", "SocketAddr": "Nat",
               "ServerStats": "(List Stats.Event)", "UdpSocket": "Gen.Sock", "Grease": "Gen.GreaseQ",
-              "KmsProvider": "Envelope.Kms", "KmsError": "Unit", "ServerConfig": "Config.Cfg", "IpAddr": "Nat"},
+              "KmsProvider": "Envelope.Kms", "KmsError": "Unit", "ServerConfig": "Config.Cfg", "IpAddr": "Nat",
+              "SmallRng": "Gen.Tape", "Bernoulli": "Nat", "Pathologies": "Gen.Pathology"},
     # translated structs (fields of other types must be listed under skip_fields)
     "structs": {
         "RtMessage": {},
@@ -32,6 +33,7 @@ SPEC = {
         "TagData": {},
         "VersionData": {},
         "ClientStats": {},
+        "Grease": {},
         "AggregatedStats": {"skip_fields": ["empty_map"]},
         "PerClientStats": {},
         "MsgSigner": {},
@@ -47,6 +49,8 @@ SPEC = {
         "Version::Google": "Version.google",
         "KmsProtection::Plaintext": "true",
         "ErrorKind::WouldBlock": "Gen.ErrorKind.wouldBlock",
+        "Pathologies::RandomlyOrderTags": "Gen.Pathology.randomlyOrderTags",
+        "Pathologies::CorruptResponseSignature": "Gen.Pathology.corruptResponseSignature",
         "Version::RfcDraft13": "Version.ietf",
     },
     # calls that are not translated but mapped onto the hand model / prelude.
@@ -103,6 +107,13 @@ SPEC = {
         "Metadata::permissions": {"lean": "{self}", "ret_rust": "Permissions"},
         "Permissions::readonly": {"lean": "(fs.readonly {self})"},
         "PathBuf::display": {"lean": "{self}"},
+        # rand behind src/grease.rs: the generator is a tape of draws (Rough/Gen/ServerExt.lean)
+        "SmallRng::from_entropy": {"lean": "tape"},
+        "Bernoulli::from_ratio": {"lean": "{0}", "ret_rust": "Bernoulli"},
+        "SmallRng::sample": {"lean": "(Gen.Tape.sample {self}).2", "res": "(Gen.Tape.sample {self}).1", "mutates": True},
+        "SmallRng::fill_bytes": {"lean": "(Gen.Tape.fillBytes {self} {0}).2", "mutates": True, "mut_args": {"0": "(Gen.Tape.fillBytes {self} {0}).1"}},
+        "Slice::choose": {"lean": "(Gen.Tape.choose {self} {0}).1", "mut_args": {"0": "(Gen.Tape.choose {self} {0}).2"}},
+        "index_sample": {"lean": "(Gen.Tape.indexSample {0} {1} {2}).1", "mut_args": {"0": "(Gen.Tape.indexSample {0} {1} {2}).2"}},
         "Utc::now": {"lean": "()", "ret_rust": "UtcNow"},
         "UtcNow::timestamp": {"lean": "(0 : Int)"},
         "SystemTime::duration_since": {"lean": "(Rs.durationSinceEpoch {self})", "result": True, "ret_rust": "Duration"},
@@ -182,6 +193,15 @@ SPEC = {
                 "PerClientStats@ServerStats::total_responses_sent", "PerClientStats@ServerStats::total_bytes_sent",
                 "PerClientStats@ServerStats::total_unique_clients", "PerClientStats@ServerStats::clear"]},
         },
+        "Grease": {
+            "file": "src/grease.rs",
+            "keep_externs": True,
+            "imports": ["Message"],
+            "lean_imports": ["Rough.Gen.ServerExt"],
+            "types_override": {"Grease": "Gen.Grease"},
+            "functions": {"Grease::new": {"extra_params": [("tape", "Gen.Tape")]}, "Grease::should_add_error": {}, "Grease::add_errors": {},
+                          "Grease::randomly_order_tags": {}, "Grease::corrupt_response_signature": {}},
+        },
         "Config": {
             "file": "src/config/mod.rs",
             "lean_imports": ["Rough.Gen.ConfigExt"],
@@ -210,6 +230,9 @@ SPEC = {
                 "RtMessage::calculate_padding_length": {},
                 "RtMessage::into_hash_map": {},
                 "RtMessage::clear": {},
+                "RtMessage::new_deliberately_invalid": {},
+                "RtMessage::tags": {},
+                "RtMessage::values": {},
             },
         },
         "Merkle": {
@@ -312,7 +335,7 @@ SPEC = {
     },
     "consts_extern": {"UNIX_EPOCH": "()", "AES_256_GCM": "()"},
     # constants defined in other files that the modules refer to
-    "const_files": ["src/lib.rs", "src/request.rs", "src/message.rs", "src/merkle.rs", "src/tag.rs", "src/bin/roughenough-client.rs", "src/key/longterm.rs", "src/key/online.rs", "src/responder.rs", "src/version.rs", "src/sign.rs", "src/kms/envelope.rs", "src/kms/mod.rs", "src/config/mod.rs", "src/server.rs", "src/stats/mod.rs", "src/stats/aggregated.rs", "src/stats/per_client.rs"],
+    "const_files": ["src/lib.rs", "src/request.rs", "src/message.rs", "src/merkle.rs", "src/tag.rs", "src/bin/roughenough-client.rs", "src/key/longterm.rs", "src/key/online.rs", "src/responder.rs", "src/version.rs", "src/sign.rs", "src/kms/envelope.rs", "src/kms/mod.rs", "src/config/mod.rs", "src/server.rs", "src/stats/mod.rs", "src/stats/aggregated.rs", "src/stats/per_client.rs", "src/grease.rs"],
 }
 
 
@@ -411,6 +434,7 @@ def run(repo, outdir, report_path):
         done = []
         queue = list(consts_needed)
         const_lines = []
+        local_const_lines = []   # constants of a non-basic type (e.g. a list of enum variants) stay in the module that uses them
         while queue:
             n = queue.pop(0)
             if n in emitted_consts or n in done: continue
@@ -429,8 +453,9 @@ def run(repo, outdir, report_path):
                     if kind == "const" and dep not in emitted_consts and dep not in done:
                         queue.insert(0, n); queue.insert(0, dep); break
                 else:
-                    const_lines.append(f"/-- `{n}` — {ce.file} -/")
-                    const_lines.append(f"def Gen.{n} : {ty} := {t}")
+                    tgt = const_lines if re.fullmatch(r"\(?(Nat|Int|Bool|String|Bytes|List Nat|List Bytes)\)?", ty) else local_const_lines
+                    tgt.append(f"/-- `{n}` — {ce.file} -/")
+                    tgt.append(f"def Gen.{n} : {ty} := {t}")
                     done.append(n); modrep["constants"].append(n)
                     continue
                 if queue.count(n) > 3: raise Unsupported(f"constant cycle at {n}")
@@ -439,6 +464,7 @@ def run(repo, outdir, report_path):
                 done.append(n)
         emitted_consts.update(done)
         all_const_lines.extend(const_lines)
+        out += local_const_lines + ([""] if local_const_lines else [])
         out += body
         for pre in m.get("prelude", []):
             out.append(pre)
